@@ -53,16 +53,23 @@ func recvDatagrams(rd io.Reader, want map[string]int, got map[string]int, mu *sy
 	handle := func(msg []byte) bool {
 		k := string(msg)
 		mu.Lock()
-		defer mu.Unlock()
-		if want[k] == 0 {
-			w, c, ok := vk.ParseDatagram(msg)
-			fail("received a %d-byte message that is not a datagram written on this stream (parses as writer %d counter %d valid=%v): merged, split, corrupted or foreign data", len(msg), w, c, ok)
+		unknown := want[k] == 0
+		dup := false
+		if !unknown {
+			got[k]++
+			dup = got[k] > want[k]
+		}
+		g, w := got[k], want[k]
+		mu.Unlock()
+		// fail takes the same mutex: call it only after unlocking
+		if unknown {
+			wr, c, ok := vk.ParseDatagram(msg)
+			fail("received a %d-byte message that is not a datagram written on this stream (parses as writer %d counter %d valid=%v): merged, split, corrupted or foreign data", len(msg), wr, c, ok)
 			return false
 		}
-		got[k]++
-		if got[k] > want[k] {
-			w, c, _ := vk.ParseDatagram(msg)
-			fail("datagram (writer %d counter %d, %d bytes) delivered %d times but written %d time(s)", w, c, len(msg), got[k], want[k])
+		if dup {
+			wr, c, _ := vk.ParseDatagram(msg)
+			fail("datagram (writer %d counter %d, %d bytes) delivered %d times but written %d time(s)", wr, c, len(msg), g, w)
 			return false
 		}
 		return true
@@ -134,6 +141,7 @@ func c14Run(t *testing.T, r *vk.Reporter, id string, c *c14Case) (kind, detail s
 				}()
 			}
 		}()
+		var cliStreams []*Stream
 		for _, s := range c.Streams {
 			s := s
 			st, err := g.cli.OpenStream()
@@ -141,6 +149,7 @@ func c14Run(t *testing.T, r *vk.Reporter, id string, c *c14Case) (kind, detail s
 				setV("open-failed", err.Error())
 				return
 			}
+			cliStreams = append(cliStreams, st)
 			go func() {
 				for i, sz := range s.Up {
 					if _, err := st.Write(vk.Datagram(s.W, uint32(i), sz)); err != nil {
@@ -170,6 +179,21 @@ func c14Run(t *testing.T, r *vk.Reporter, id string, c *c14Case) (kind, detail s
 				}
 			}
 			s.mu.Unlock()
+		}
+		// the opener now closes its streams: the acceptor-side readers (which read until they get an
+		// error, as relay loops do) must end without receiving anything that was not written
+		if kind == "" {
+			for _, st := range cliStreams {
+				st.Close()
+			}
+			g.settle()
+			for _, s := range c.Streams {
+				s.mu.Lock()
+				if len(s.errs) > 0 {
+					setV("bad-datagram-at-close", "after the peer closed the stream: "+s.errs[0])
+				}
+				s.mu.Unlock()
+			}
 		}
 		r.Distinct("arrival_orders", vk.Hash64(g.arrivals))
 		r.Count("out_of_order_arrivals", int64(g.ooo))
@@ -259,6 +283,42 @@ func c14Single(t *testing.T, r *vk.Reporter, id string, cfg rigCfg, sizes []int)
 				return
 			}
 			r.Count("datagrams_checked", 1)
+		}
+		// a closed stream stays closed: after the peer closed stream 1 and a new stream carries a
+		// datagram, a late Read on the old stream must fail and the new stream must get its datagram
+		if ac != nil {
+			st.Close()
+			g.settle()
+			var ac2 *Stream
+			go func() {
+				c, err := g.srv.Accept()
+				if err == nil {
+					ac2 = c.(*Stream)
+				}
+			}()
+			st2, err := g.cli.OpenStream()
+			if err == nil {
+				d := vk.Datagram(78, 1, 333)
+				st2.Write(d)
+				g.settle()
+				ac.SetReadDeadline(time.Now().Add(time.Hour))
+				late := make([]byte, 1000)
+				if n, err := ac.Read(late); err == nil {
+					kind, detail = "closed-stream-delivers", fmt.Sprintf("a Read on a stream the peer had closed returned %d bytes after a later stream received a datagram: data of another stream", n)
+					return
+				}
+				if ac2 == nil {
+					kind, detail = "not-accepted", "the second stream was not accepted"
+					return
+				}
+				ac2.SetReadDeadline(time.Now().Add(time.Hour))
+				n, err := ac2.Read(late)
+				if err != nil || string(late[:n]) != string(d) {
+					kind, detail = "lost-datagram", fmt.Sprintf("the datagram written on the new stream was not delivered to it (n=%d err=%v)", n, err)
+					return
+				}
+				r.Count("read_after_close_checks", 1)
+			}
 		}
 		g.closeAll()
 		synctest_Wait()
